@@ -563,6 +563,10 @@ func getTypeFromEnv(runInfo *runInfoStruct, typeStruct *ast.TypeStruct) reflect.
 func makeValue(t reflect.Type) (reflect.Value, error) {
 	switch t.Kind() {
 	case reflect.Chan:
+		if t.ChanDir() != reflect.BothDir {
+			// MakeChan panics for a unidirectional type: make the channel, then give it that type
+			return reflect.MakeChan(reflect.ChanOf(reflect.BothDir, t.Elem()), 0).Convert(t), nil
+		}
 		return reflect.MakeChan(t, 0), nil
 	case reflect.Func:
 		return reflect.MakeFunc(t, nil), nil
